@@ -275,6 +275,12 @@ func (t *Tree) RemoveTips(revert bool, names ...string) error {
 			}
 		}
 	}
+	// If the tip name index was in use, it must reflect the new set of tips
+	if len(t.tipIndex) > 0 {
+		if err := t.UpdateTipIndex(); err != nil {
+			return err
+		}
+	}
 	t.ReinitInternalIndexes()
 	return nil
 }
